@@ -15,12 +15,13 @@ Lemma run_world_cons f w o ops : run_world shuf f w (o :: ops) = run_world shuf 
 Proof. reflexivity. Qed.
 
 (* after a successful _change(x, PLAYING) issued while c was current: the four notifications *)
-Lemma change_settles f x c w :
+Lemma change_settles_full f x c w :
   queue w = [] -> pending_position w = None -> start_at_position w = None -> start_paused w = false ->
   current w = Some c -> tkind_has_backend (kind_of w (trk c)) = true -> consume w = false ->
   accepts w x ->
   let w1 := fx_gtp (fx_change x Playing w) in
   let w' := run_world shuf (S f) w1 [Deliver; Deliver; Deliver; Deliver] in
+  settled_on w' x /\ stable w w' /\
   current w' = Some x /\ pstate w' = Playing /\ pending w' = None /\ queue w' = []
   /\ a_uri w' = Some (trk x) /\ a_state w' = Playing /\ World.tl w' = World.tl w.
 Proof.
@@ -67,8 +68,22 @@ Proof.
   assert (D4' : (deliver shuf (S f) ;; ret RNone)%M w4' = (Ok RNone, w5)).
   { apply (run_op_bind_none _ w4' tt w5). exact D4. }
   rewrite (stepw_eq shuf (S f) Deliver w4' RNone w5 _ _ D4' G5).
+  split; [constructor; try reflexivity; try assumption; try (apply Hbx; reflexivity);
+           try (cbn; split; first [reflexivity|assumption]); try (cbn; assumption)|].
+  split; [unfold stable; repeat split; try reflexivity; try assumption;
+           try (intros Hs0; cbn; rewrite ?Hs0; cbn; rewrite ?Hs0; first [reflexivity|assumption])|].
   repeat split; reflexivity.
 Qed.
+
+Lemma change_settles f x c w :
+  queue w = [] -> pending_position w = None -> start_at_position w = None -> start_paused w = false ->
+  current w = Some c -> tkind_has_backend (kind_of w (trk c)) = true -> consume w = false ->
+  accepts w x ->
+  let w1 := fx_gtp (fx_change x Playing w) in
+  let w' := run_world shuf (S f) w1 [Deliver; Deliver; Deliver; Deliver] in
+  current w' = Some x /\ pstate w' = Playing /\ pending w' = None /\ queue w' = []
+  /\ a_uri w' = Some (trk x) /\ a_state w' = Playing /\ World.tl w' = World.tl w.
+Proof. intros. cbv zeta. eapply proj2. eapply proj2. eapply change_settles_full; eassumption. Qed.
 
 (* play() in the stopped state with a current track: that track is (re)started *)
 Lemma play_none_run f c w :
@@ -195,10 +210,11 @@ Proof.
 Qed.
 
 (* ---- seek within the current track (playing or paused) *)
-Theorem seek_agreement f p c len w :
+Theorem seek_agreement_full f p c len w :
   settled_on w c -> pstate w <> Stopped -> World.tl w <> [] ->
   len_of w (trk c) = Some len -> 0 <= p -> p <= len ->
   let w' := run_world shuf (S f) w [Seek p; Deliver] in
+  settled_on w' c /\ stable w w' /\
   current w' = Some c /\ pstate w' = pstate w /\ pending w' = None /\ pending_position w' = None
   /\ queue w' = [] /\ a_uri w' = a_uri w /\ a_state w' = a_state w /\ a_pos w' = p
   /\ events w' = EvSeeked p :: events w /\ World.tl w' = World.tl w.
@@ -223,8 +239,21 @@ Proof.
   { apply (gtp_run w2 c); [reflexivity|exact Hc|exact Hb]. }
   rewrite (stepw_eq shuf (S f) Deliver w1 RNone w2 _ _ (run_op_bind_none _ w1 tt w2 D1) G2).
   unfold run_world. cbn [fold_left].
+  split; [constructor; try reflexivity; try assumption; try (apply Hbx; reflexivity);
+           try (cbn; split; first [reflexivity|assumption]); try (cbn; assumption)|].
+  split; [unfold stable; repeat split; try reflexivity; try assumption;
+           try (intros Hs0; cbn; rewrite ?Hs0; cbn; rewrite ?Hs0; first [reflexivity|assumption])|].
   repeat split; try reflexivity; assumption.
 Qed.
+
+Theorem seek_agreement f p c len w :
+  settled_on w c -> pstate w <> Stopped -> World.tl w <> [] ->
+  len_of w (trk c) = Some len -> 0 <= p -> p <= len ->
+  let w' := run_world shuf (S f) w [Seek p; Deliver] in
+  current w' = Some c /\ pstate w' = pstate w /\ pending w' = None /\ pending_position w' = None
+  /\ queue w' = [] /\ a_uri w' = a_uri w /\ a_state w' = a_state w /\ a_pos w' = p
+  /\ events w' = EvSeeked p :: events w /\ World.tl w' = World.tl w.
+Proof. intros. cbv zeta. eapply proj2. eapply proj2. eapply seek_agreement_full; eassumption. Qed.
 
 
 (* ---- play(tlid) while a track is current (playing, paused or stopped): switch to that entry *)
